@@ -82,8 +82,10 @@ def families(tier, seed):
             yield Instance(f"homo-sym|{u}|{k}", mol(tok("N"), sto("[$]", [u], ends, "[$]", g0(round(k * m, 3))), tok("F")), family="homo-sym")
     # 3. random copolymer, two units, all weight forms
     wforms = [(None, None), ("3", None), ("0", None), ("0", "0"), ("0.5", "0.5"), ("2", "6")]
+    # tiny / nearly equal weights: "equal" means equal, not "close"
+    wforms += [("0", "1e-9"), ("1e-9", "3e-9"), ("1", "1.000001")]
     if thorough:
-        wforms += [(None, "0"), ("1e-3", "1"), ("3.", ".5")]
+        wforms += [(None, "0"), ("1e-3", "1"), ("3.", ".5"), ("1e-12", "0"), ("1e5", "100001")]
     pairs = [(units[0], units[1])] + ([(units[1], units[2]), (units[0], units[3])] if thorough else [])
     for (a, b), (wa, wb) in itertools.product(pairs, wforms):
         ua = w(a, 0, wa) if wa is not None else a
@@ -136,6 +138,33 @@ def families(tier, seed):
         mol(sto("[]", ["[<]CC([>|1 0 0 2 0|])[>]"], ["[<]Cl", "[>]N"], "[]", g0(40.0))),
         family="transitions",
     )
+    # a descriptor carrying a transition list is left open and handed to the next element (plain left terminal)
+    yield Instance(
+        "trans-survives-handover",
+        mol(sto("[]", ["[<|0 1 0|]CO[>]"], ["[<]F"], "[>]", g0(20.0)), sto("[<]", ["[<]CC[>|3|]", "[<]NN[>|1|]"], ["[>]Cl"], "[]", g0(20.0))),
+        family="transitions",
+    )
+    yield Instance(
+        "trans-on-prefix-token",
+        mol(tok("N[>|0 1 0 0|]"), sto("[>]", ["[<]CC[>]", "[<|3|]CO[>]"], [], "[<]", g0(20.0)), tok("F")),
+        family="transitions",
+    )
+    yield Instance(
+        "trans-handover-to-token",
+        mol(tok("N"), sto("[>]", ["[<]CC[>|0 1 0 0|]", "[<]CO[>|1 1 0 0|]"], [], "[<]", g0(40.0)), tok("[<]C([<|3|])F")),
+        family="transitions",
+    )
+    # end-group start with nearly equal weights
+    yield Instance("endstart-tiny", mol(sto("[]", ["[$]CC[$]"], ["[$|0|]N", "[$|1e-9|]O"], "[]", g0(30.0))), family="end-initiated")
+    # transition lists that give weight to an incompatible descriptor: the pick must be refused, never bonded
+    yield Instance("trans-incompatible", mol(sto("[]", ["[<]CC[>|3 1 0 0|]"], ["[>]F", "[<]Cl"], "[]", g0(40.0))), family="transitions-illposed")
+    yield Instance("trans-incompatible-id", mol(sto("[]", ["[$1]CC[$1|2 0 1 0 0 0|]", "[$2]CO[$2]"], ["[$1]F", "[$2]Cl"], "[]", g0(40.0))), family="transitions-illposed")
+    # end groups chosen through a transition list on a branching unit (they are growth steps: the mass test follows)
+    yield Instance("trans-endgroup-branching", mol(tok("C"), sto("[>]", ["[<]CC([>|1 0 0 1|])[>|1 0 0 1|]"], ["[<]Br"], "[]", g0(70.0))), family="transitions")
+    # negative and zero targets
+    yield Instance("negative-target", mol(tok("[H]"), sto("[>]", ["[<]CC[>]"], [], "[<]", g0(-12.5)), tok("O")), family="homo-dir")
+    yield Instance("negative-target-endstart", mol(sto("[]", ["[$]CC[$]"], ["[$]N"], "[]", g0(-3.0))), family="end-initiated")
+    yield Instance("zero-target", mol(tok("[H]"), sto("[>]", ["[<]CC[>]", "[<]CO[>]"], [], "[<]", g0(0.0)), tok("O")), family="homo-dir")
     # 8. step growth AA / BB
     yield Instance("aabb", mol(sto("[]", ["[<]C(=O)CC(=O)[<]", "[>]NCCN[>]"], ["[<]O", "[>][H]"], "[]", g0(120.0))), family="step-growth")
     yield Instance("aabb-w", mol(sto("[]", ["[<]C(=O)C(=O)[<]", "[>]NCN[>]"], ["[<|2|]O", "[>][H]", "[>|0.5|]F"], "[]", g0(100.0))), family="step-growth")
@@ -143,6 +172,11 @@ def families(tier, seed):
     yield Instance("ab2", mol(sto("[]", ["[<]CC([>])[>]"], ["[>]N", "[<]O"], "[]", g0(40.0))), family="branched")
     yield Instance("ab2-prefix", mol(tok("S"), sto("[>]", ["[<]CN([>])[>]"], ["[<]Cl"], "[<]", g0(60.0)), tok("F")), family="branched")
     yield Instance("graft", mol(tok("N"), sto("[>]", ["[<]CC([$1])[>]", "[<]CO[>]"], ["[$1]CCC"], "[<]", g0(60.0)), tok("F")), family="branched")
+    # comb / graft sites that only an end group can close (weight 0: never a growth site), two descriptor classes
+    yield Instance("comb-zero", mol(tok("N"), sto("[>]", ["[<]CC(C[<|0|])[>]"], ["[>]Br"], "[<]", g0(60.0)), tok("O")), family="branched")
+    yield Instance("comb-zero-sym", mol(tok("N"), sto("[$]", ["[$]CC([$1|0|])C[$]"], ["[$1]F"], "[$]", g0(60.0)), tok("O")), family="branched")
+    yield Instance("twoclass-sym", mol(tok("C"), sto("[$1]", ["[$1]CC([$2])C[$1]"], ["[$2]F", "[$1]Cl"], "[$1]", g0(60.0)), tok("O")), family="branched")
+    yield Instance("twoclass-dir", mol(tok("C"), sto("[>]", ["[<]CC([<2|0|])[>]", "[<]CO[>]"], ["[>2]F", "[<]Cl"], "[<]", g0(60.0)), tok("O")), family="branched")
     if thorough:
         yield Instance("ab2-w", mol(sto("[]", ["[<]CC([>|3|])[>]", "[<|0.5|]CO[>]"], ["[>]N", "[<]O"], "[]", g0(60.0))), family="branched")
         yield Instance("star3", mol(sto("[]", ["[<]C([<])([<])C", "[>]CC[<]"], ["[>]N", "[<]O"], "[]", g0(80.0))), family="branched")
@@ -165,5 +199,9 @@ def families(tier, seed):
     yield Instance("open-right", mol(tok("N"), sto("[>]", [a, b], [], "[<]", g0(40.0))), family="open-ends")
     # 13. aromatic / charged / ring unit mixes
     yield Instance("chem-mix", mol(tok("[NH3+]C"), sto("[>]", ["[<]CC([>])c1ccccc1", "[<]C[NH2+][>]"], [], "[<]", g0(110.0)), tok("C(=O)[O-]")), family="chemistry")
+    # explicit hydrogens written inside tokens (merged into their heavy atom by RDKit), [H] end groups
+    yield Instance("explicit-h", mol(tok("N"), sto("[$]", ["[$]C([H])(C#N)[$]", "[$]CC[$]"], [], "[$]", g0(70.0)), tok("F")), family="chemistry")
+    yield Instance("explicit-h-prefix", mol(tok("CC([H])(C)"), sto("[>]", ["[<]C(C#N)([H])[>]"], [], "[<]", g0(60.0)), tok("[H]")), family="chemistry")
+    yield Instance("nitrile-branch", mol(tok("N"), sto("[$]", ["[$]CC(C#N)([$])", "[$]CC(Cl)([$])"], [], "[$]", g0(70.0)), tok("F")), family="chemistry")
     if thorough:
         yield Instance("chem-mix2", mol(tok("c1ccccc1C"), sto("[>]", ["[<]C1CCC([>])CC1", "[<][Si](C)(C)[>]", "[<]C(Cl)C[>]"], [], "[<]", g0(150.0)), tok("Br")), family="chemistry")
